@@ -11,7 +11,7 @@ open FV.FlwB (nkey keyLt_irrefl keyLt_trans keyLt_asymm openFile_ok openFile_new
 
 /-! ### the model functions without faults -/
 
-/-- what `mountNext` does once the new infix is chosen (no faults) -/
+/-- what `mountNextCore` does once the new infix is chosen (no faults) -/
 def rotTailC (s : St) (a : Active) (i : Infix) (r : RotCfg) (now : Nat) : St × Active × Bool :=
   let n : FName := ⟨some i, false⟩
   let s1 := (openFile s n now noFaults 0).1
@@ -33,46 +33,46 @@ theorem openFile_snd (s : St) (n : FName) (now : Nat) :
     (openFile s n now noFaults 0).2 = true := by
   rw [openFile_ok]
 
-theorem mountNext_nD (s : St) (a : Active) (r : RotCfg) (force : Bool) (now : Nat)
+theorem mountNextCore_nD (s : St) (a : Active) (r : RotCfg) (force : Bool) (now : Nat)
     (hn : r.naming = .numbersDirect)
     (h : (force || rotationNecessary r a now) = true) :
-    mountNext s a r force now noFaults =
+    mountNextCore s a r force now noFaults =
       rotTailC s { a with idx := a.idx + 1 } (.num (a.idx + 1)) r now := by
-  unfold mountNext
+  unfold mountNextCore
   simp only [h, hn]
   rw [openFile_ok]
   simp [rotTailC, flushAct]
 
-theorem mountNext_tD (s : St) (a : Active) (r : RotCfg) (force : Bool) (now : Nat)
+theorem mountNextCore_tD (s : St) (a : Active) (r : RotCfg) (force : Bool) (now : Nat)
     (hn : r.naming = .timestampsDirect)
     (h : (force || rotationNecessary r a now) = true) :
-    mountNext s a r force now noFaults =
+    mountNextCore s a r force now noFaults =
       rotTailC s { a with stamp := now } (collisionFree s.dir now) r now := by
-  unfold mountNext
+  unfold mountNextCore
   simp only [h, hn]
   rw [openFile_ok]
   simp [rotTailC, flushAct]
 
-theorem mountNext_n (s : St) (a : Active) (r : RotCfg) (force : Bool) (now : Nat) (f : File)
+theorem mountNextCore_n (s : St) (a : Active) (r : RotCfg) (force : Bool) (now : Nat) (f : File)
     (hn : r.naming = .numbers) (hh : a.handle = curN) (hf : s.dir.get curN = some f)
     (h : (force || rotationNecessary r a now) = true) :
-    mountNext s a r force now noFaults =
+    mountNextCore s a r force now noFaults =
       rotTailC { s with dir := (s.dir.erase curN).set ⟨some (.num a.idx), false⟩ f }
         { a with handle := ⟨some (.num a.idx), false⟩, idx := a.idx + 1 } .cur r now := by
-  unfold mountNext
+  unfold mountNextCore
   have hr0 : hit noFaults.renameF 0 = false := rfl
   simp only [h, hn, hr0, Dir.rename, hf, hh]
   simp [rotTailC, flushAct, openFile_snd]
 
-theorem mountNext_t (s : St) (a : Active) (r : RotCfg) (force : Bool) (now : Nat) (f : File)
+theorem mountNextCore_t (s : St) (a : Active) (r : RotCfg) (force : Bool) (now : Nat) (f : File)
     (hn : r.naming = .timestamps) (hh : a.handle = curN) (hf : s.dir.get curN = some f)
     (h : (force || rotationNecessary r a now) = true) :
-    mountNext s a r force now noFaults =
+    mountNextCore s a r force now noFaults =
       rotTailC { s with dir := (s.dir.erase curN).set ⟨some (collisionFree s.dir a.stamp), false⟩ f }
         { a with handle := ⟨some (collisionFree s.dir a.stamp), false⟩,
                  stamp := createdOr ((s.dir.erase curN).set
                    ⟨some (collisionFree s.dir a.stamp), false⟩ f) curN now } .cur r now := by
-  unfold mountNext
+  unfold mountNextCore
   have hr0 : hit noFaults.renameF 0 = false := rfl
   simp only [h, hn, hr0, Dir.rename, hf, hh]
   simp [rotTailC, flushAct, openFile_snd]
@@ -675,13 +675,13 @@ theorem CInv.of_rot {cfg : Cfg} {r : RotCfg} {k m : Nat} {d d' : Dir} {act act1 
   rw [hcur] at hd'
   exact hd'
 
-theorem mountNext_rot {cfg : Cfg} {r : RotCfg} {k m : Nat} (hC : CfgC cfg r k m) (s : St)
+theorem mountNextCore_rot {cfg : Cfg} {r : RotCfg} {k m : Nat} (hC : CfgC cfg r k m) (s : St)
     (act : Active) (a : Abs) (force : Bool) (now : Nat) (hcfg : s.cfg = cfg)
     (hi : CInv cfg r k m s.dir act a) (hst : act.stamp ≤ now)
     (h : (force || rotationNecessary r act now) = true) :
-    (∃ s' act', mountNext s act r force now noFaults = (s', act', false) ∧ s'.cfg = cfg ∧
+    (∃ s' act', mountNextCore s act r force now noFaults = (s', act', false) ∧ s'.cfg = cfg ∧
       CInv cfg r k m s'.dir act' (a.rotate now) ∧ act'.stamp ≤ now) ∧
-    (∃ s0 act0 ti, mountNext s act r force now noFaults = rotTailC s0 act0 ti r now ∧
+    (∃ s0 act0 ti, mountNextCore s act r force now noFaults = rotTailC s0 act0 ti r now ∧
       FV.FlwL.IfxDistinct (preCleanupDir s0 act0 ti now)) := by
   obtain ⟨f, C, hd, hcur⟩ := hi.dir
   have hb := hd.below
@@ -692,7 +692,7 @@ theorem mountNext_rot {cfg : Cfg} {r : RotCfg} {k m : Nat} (hC : CfgC cfg r k m)
     rw [hnm] at hb hH
     simp only [Below, HandleOK] at hb hH
     have hf : s.dir.get curN = some f := by rw [← hH]; exact hd.get_handle
-    rw [mountNext_n s act r force now f hnm hH hf h]
+    rw [mountNextCore_n s act r force now f hnm hH hf h]
     have hperm0 : List.Perm s.dir ([] ++ (curN, f) :: C) := by rw [← hH]; exact hd.perm
     have hnd0 : (([] ++ (curN, f) :: C).map (fun e : E => e.1)).Nodup := by rw [← hH]; exact hd.names_nodup
     have hnotin : ∀ e ∈ C, e.1 ≠ (⟨some (.num act.idx), false⟩ : FName) := by
@@ -733,7 +733,7 @@ theorem mountNext_rot {cfg : Cfg} {r : RotCfg} {k m : Nat} (hC : CfgC cfg r k m)
     rw [hnm] at hb hH
     simp only [Below, HandleOK] at hb hH
     have hf : s.dir.get curN = some f := by rw [← hH]; exact hd.get_handle
-    rw [mountNext_t s act r force now f hnm hH hf h]
+    rw [mountNextCore_t s act r force now f hnm hH hf h]
     obtain ⟨rr, hrr⟩ := FV.FlwA.collisionFree_ts s.dir act.stamp
     have hperm0 : List.Perm s.dir ([] ++ (curN, f) :: C) := by rw [← hH]; exact hd.perm
     have hnd0 : (([] ++ (curN, f) :: C).map (fun e : E => e.1)).Nodup := by rw [← hH]; exact hd.names_nodup
@@ -791,7 +791,7 @@ theorem mountNext_rot {cfg : Cfg} {r : RotCfg} {k m : Nat} (hC : CfgC cfg r k m)
     have hsAll := hd.sortedAll hw
     rw [hnm] at hb hH
     simp only [Below, HandleOK] at hb hH
-    rw [mountNext_nD s act r force now hnm h]
+    rw [mountNextCore_nD s act r force now hnm h]
     obtain ⟨h1, h2, -, h4, C', h5, h6⟩ := rotTailC_spec cfg r k m hC.cleanup s hcfg
       { act with idx := act.idx + 1 } (.num (act.idx + 1)) now f C a.closed
       hd.perm hsAll (by rw [hH]) hd.pat hd.data
@@ -816,7 +816,7 @@ theorem mountNext_rot {cfg : Cfg} {r : RotCfg} {k m : Nat} (hC : CfgC cfg r k m)
     rw [hnm] at hb hH
     simp only [Below, HandleOK] at hb hH
     obtain ⟨r0, hH⟩ := hH
-    rw [mountNext_tD s act r force now hnm h]
+    rw [mountNextCore_tD s act r force now hnm h]
     obtain ⟨rr, hrr⟩ := FV.FlwA.collisionFree_ts s.dir now
     have hmemH : (act.handle, f) ∈ ents s.dir := hd.perm.symm.subset (by simp)
     have habove : keyLt (nkey act.handle) (collisionFree s.dir now).key = true := by
@@ -839,6 +839,20 @@ theorem mountNext_rot {cfg : Cfg} {r : RotCfg} {k m : Nat} (hC : CfgC cfg r k m)
           exact ⟨_, hi1, k', r', rfl, Nat.le_trans hk hst, keyLt_trans hlt habove⟩)
       (by rw [hnm]; exact ⟨rr, by rw [hrr]⟩)
     exact ⟨finish_rot h1 h2 h4 (hi.of_rot hcur _ now h5) (Nat.le_refl _), _, _, _, rfl, h6⟩
+
+/-- `mountNext`: the `BufWriter` is flushed into the file that is rotated out, then the
+    rotation proper -/
+theorem mountNext_rot {cfg : Cfg} {r : RotCfg} {k m : Nat} (hC : CfgC cfg r k m) (s : St)
+    (act : Active) (a : Abs) (force : Bool) (now : Nat) (hcfg : s.cfg = cfg)
+    (hi : CInv cfg r k m s.dir act a) (hst : act.stamp ≤ now)
+    (h : (force || rotationNecessary r act now) = true) :
+    (∃ s' act', mountNext s act r force now noFaults = (s', act', false) ∧ s'.cfg = cfg ∧
+      CInv cfg r k m s'.dir act' (a.rotate now) ∧ act'.stamp ≤ now) ∧
+    (∃ s0 act0 ti, mountNext s act r force now noFaults = rotTailC s0 act0 ti r now ∧
+      FV.FlwL.IfxDistinct (preCleanupDir s0 act0 ti now)) := by
+  rw [FV.FlwA.mountNext_due s act r force now noFaults h]
+  exact mountNextCore_rot hC (flushAct s act).1 (flushAct s act).2 a true now hcfg
+    (flush_inv cfg r k m s act a hi) hst rfl
 
 /-! ### initialisation -/
 
